@@ -143,7 +143,7 @@ func init() {
 		Assumptions: []string{"keys and tags are byte strings of at most 5 / 3 bytes; at most 2 enable keys, 2 disable keys, 2+1 tags"},
 	}
 	properties["C15"] = &property{
-		ID: "C15", Level: "model_checking",
+		ID: "C15", Level: "model_checking", Extra: runC15Rules,
 		Harnesses: []harness{
 			{Name: "gsxC15ParseAccepts", Pkg: "linter", Quick: map[string]int{"strlen": 8, "splitparts": 4}, MustReach: []string{"accepted", "rejected"}},
 			{Name: "gsxC15ParseValue", Pkg: "linter", Quick: map[string]int{"strlen": 8}, MustReach: []string{"parsed"}},
